@@ -513,6 +513,12 @@ impl AgentSim {
                 break;
             }
             let r2 = self.call(ctx, Call::Poll { at })?;
+            if let Reply::Cancelled(tid) = &r2 {
+                if self.model.ambiguous_cancel(*tid) {
+                    let q = exec(&mut self.agent, &Call::QueryTx { tid: *tid }, self.base);
+                    self.model.hint_live_gone = Some(matches!(q, Reply::Tx(None)));
+                }
+            }
             if let Err(v) = self.model.on_poll(at, &r2) {
                 return Err(self.fail(ctx, v));
             }
